@@ -1,1 +1,655 @@
-//! ref_bin (to be filled)
+//! Reference model of a bin archive: content model, canonical writer (C02), layout-family
+//! writer (C01c), validating parser (C01b, C05) and the edit operations (C03).
+//! Written from the format description in DESIGN Appendix A and the property statements.
+
+use crate::sjis;
+use std::collections::BTreeMap;
+
+#[derive(Clone, Copy, PartialEq, Eq, Hash, Debug, PartialOrd, Ord)]
+pub enum End {
+    Little,
+    Big,
+}
+
+impl End {
+    pub fn u32(self, v: u32) -> [u8; 4] {
+        match self {
+            End::Little => v.to_le_bytes(),
+            End::Big => v.to_be_bytes(),
+        }
+    }
+    pub fn rd32(self, b: &[u8]) -> u32 {
+        let a = [b[0], b[1], b[2], b[3]];
+        match self {
+            End::Little => u32::from_le_bytes(a),
+            End::Big => u32::from_be_bytes(a),
+        }
+    }
+}
+
+#[derive(Clone, Debug, PartialEq, Eq, Hash)]
+pub struct Content {
+    pub endian: End,
+    pub data: Vec<u8>,
+    pub strings: BTreeMap<usize, String>,
+    pub pointers: BTreeMap<usize, usize>,
+    /// pending c-strings by cell address
+    pub cstrings: BTreeMap<usize, String>,
+    /// per-address order is content
+    pub labels: BTreeMap<usize, Vec<String>>,
+}
+
+impl Content {
+    pub fn new(endian: End) -> Self {
+        Content {
+            endian,
+            data: vec![],
+            strings: BTreeMap::new(),
+            pointers: BTreeMap::new(),
+            cstrings: BTreeMap::new(),
+            labels: BTreeMap::new(),
+        }
+    }
+    pub fn size(&self) -> usize {
+        self.data.len()
+    }
+    pub fn label_count(&self) -> usize {
+        self.labels.values().map(|v| v.len()).sum()
+    }
+    /// Is the content inside the domain of C01/C02 (so that serialize→parse must be exact)?
+    pub fn in_roundtrip_domain(&self) -> bool {
+        let size = self.size();
+        let cell_ok = |a: &usize| a + 4 <= size;
+        // at most one annotation per cell, annotations do not overlap
+        let mut cells: Vec<usize> = self.strings.keys().chain(self.pointers.keys()).chain(self.cstrings.keys()).cloned().collect();
+        cells.sort();
+        for w in cells.windows(2) {
+            if w[1] < w[0] + 4 {
+                return false;
+            }
+        }
+        cells.iter().all(cell_ok)
+            && self.pointers.values().all(|t| *t <= size)
+            && self.labels.keys().all(|a| *a <= size)
+            && self.strings.values().chain(self.cstrings.values()).chain(self.labels.values().flatten()).all(|s| sjis::lossless(s))
+    }
+    pub fn annotated(&self, addr: usize) -> bool {
+        // is byte `addr` covered by a pointer/string/c-string cell?
+        self.strings.keys().chain(self.pointers.keys()).chain(self.cstrings.keys()).any(|a| addr >= *a && addr < *a + 4)
+    }
+}
+
+// ------------------------------------------------------------------------------------
+// c-string pool (format rule: distinct strings sorted by their Shift-JIS bytes,
+// NUL-terminated, concatenated after the caller's data, pool padded to a multiple of 4)
+
+pub struct Pool {
+    pub bytes: Vec<u8>,
+    pub offset_of: BTreeMap<String, usize>,
+}
+
+pub fn cstring_pool(c: &Content) -> Pool {
+    let mut distinct: Vec<(Vec<u8>, String)> = Vec::new();
+    for s in c.cstrings.values() {
+        let b = sjis::encode(s).unwrap_or_default();
+        if !distinct.iter().any(|(_, t)| t == s) {
+            distinct.push((b, s.clone()));
+        }
+    }
+    distinct.sort();
+    let mut bytes = Vec::new();
+    let mut offset_of = BTreeMap::new();
+    for (b, s) in distinct {
+        offset_of.insert(s, bytes.len());
+        bytes.extend(b);
+        bytes.push(0);
+    }
+    while bytes.len() % 4 != 0 {
+        bytes.push(0);
+    }
+    Pool { bytes, offset_of }
+}
+
+/// Content with the pending c-strings materialised the way the format stores them:
+/// pool appended to the data, each c-string cell an ordinary internal pointer.
+pub fn materialise_cstrings(c: &Content) -> Content {
+    let pool = cstring_pool(c);
+    let mut out = c.clone();
+    let base = c.data.len();
+    out.data.extend_from_slice(&pool.bytes);
+    for (addr, s) in &c.cstrings {
+        out.pointers.insert(*addr, base + pool.offset_of[s]);
+    }
+    out.cstrings.clear();
+    out
+}
+
+// ------------------------------------------------------------------------------------
+// Writers
+
+#[derive(Clone, Debug, PartialEq, Eq)]
+pub enum TextOrder {
+    /// label names, then strings (canonical)
+    NamesFirst,
+    StringsFirst,
+    Interleaved,
+}
+
+#[derive(Clone, Debug)]
+pub struct Layout {
+    /// permutation of the pointer table relative to canonical order
+    pub pointer_perm: Vec<usize>,
+    /// permutation of the label table relative to canonical order (must keep the
+    /// relative order of labels on one address)
+    pub label_perm: Vec<usize>,
+    pub text_order: TextOrder,
+    /// store every use of a repeated string separately
+    pub duplicate_strings: bool,
+    /// one unused byte at the start of the text section
+    pub lead_pad: bool,
+}
+
+/// Label table in canonical order: by address (LE) / by name (BE), same-address order kept.
+/// For BE the order among equal names is by address (any tie order is acceptable; see
+/// `be_order_is_determined`).
+pub fn canonical_labels(c: &Content) -> Vec<(usize, String)> {
+    let mut v: Vec<(usize, String)> = Vec::new();
+    match c.endian {
+        End::Little => {
+            for (a, names) in &c.labels {
+                for n in names {
+                    v.push((*a, n.clone()));
+                }
+            }
+        }
+        End::Big => {
+            let mut buckets: Vec<(&usize, &Vec<String>)> = c.labels.iter().collect();
+            buckets.sort_by(|x, y| x.1.cmp(y.1).then(x.0.cmp(y.0)));
+            for (a, names) in buckets {
+                for n in names {
+                    v.push((*a, n.clone()));
+                }
+            }
+        }
+    }
+    v
+}
+
+/// For big-endian archives the statement fixes the table order only when every labelled
+/// address carries exactly one label and all names are distinct.
+pub fn be_order_is_determined(c: &Content) -> bool {
+    if c.endian == End::Little {
+        return true;
+    }
+    let mut names: Vec<&String> = Vec::new();
+    for v in c.labels.values() {
+        if v.len() != 1 {
+            return false;
+        }
+        names.push(&v[0]);
+    }
+    let n = names.len();
+    names.sort();
+    names.dedup();
+    names.len() == n
+}
+
+/// Canonical pointer table: internal pointers by ascending address, then string pointers
+/// grouped by string in first-use (ascending address) order, ascending inside a group.
+pub fn canonical_pointer_table(c: &Content) -> Vec<usize> {
+    let mut t: Vec<usize> = c.pointers.keys().cloned().collect();
+    let mut groups: Vec<(String, Vec<usize>)> = Vec::new();
+    for (a, s) in &c.strings {
+        match groups.iter_mut().find(|(g, _)| g == s) {
+            Some((_, v)) => v.push(*a),
+            None => groups.push((s.clone(), vec![*a])),
+        }
+    }
+    for (_, v) in groups {
+        t.extend(v);
+    }
+    t
+}
+
+fn enc(s: &str) -> Vec<u8> {
+    let mut b = sjis::encode(s).expect("string outside the Shift-JIS domain");
+    b.push(0);
+    b
+}
+
+/// Write an image of `c` (which must have no pending c-strings) in the given layout.
+pub fn write_layout(c: &Content, l: &Layout) -> Vec<u8> {
+    assert!(c.cstrings.is_empty());
+    let e = c.endian;
+    let d = c.data.len();
+    let ptrs_canon = canonical_pointer_table(c);
+    let labels_canon = canonical_labels(c);
+    let ptrs: Vec<usize> = l.pointer_perm.iter().map(|i| ptrs_canon[*i]).collect();
+    let labels: Vec<(usize, String)> = l.label_perm.iter().map(|i| labels_canon[*i].clone()).collect();
+    let p = ptrs.len();
+    let n = labels.len();
+    let text_start = d + 4 * p + 8 * n; // relative to 0x20
+
+    // text section
+    let mut text: Vec<u8> = Vec::new();
+    if l.lead_pad {
+        text.push(0x7E);
+    }
+    let mut shared: BTreeMap<String, usize> = BTreeMap::new();
+    let place = |s: &str, text: &mut Vec<u8>, shared: &mut BTreeMap<String, usize>, dup: bool| -> usize {
+        if !dup {
+            if let Some(o) = shared.get(s) {
+                return *o;
+            }
+        }
+        let o = text.len();
+        text.extend(enc(s));
+        shared.insert(s.to_string(), o);
+        o
+    };
+    let string_cells: Vec<(usize, String)> = c.strings.iter().map(|(a, s)| (*a, s.clone())).collect();
+    let mut name_off: Vec<usize> = vec![0; n];
+    let mut str_off: BTreeMap<usize, usize> = BTreeMap::new();
+    match l.text_order {
+        TextOrder::NamesFirst => {
+            for (i, (_, nm)) in labels.iter().enumerate() {
+                name_off[i] = place(nm, &mut text, &mut shared, l.duplicate_strings);
+            }
+            for (a, s) in &string_cells {
+                str_off.insert(*a, place(s, &mut text, &mut shared, l.duplicate_strings));
+            }
+        }
+        TextOrder::StringsFirst => {
+            for (a, s) in &string_cells {
+                str_off.insert(*a, place(s, &mut text, &mut shared, l.duplicate_strings));
+            }
+            for (i, (_, nm)) in labels.iter().enumerate() {
+                name_off[i] = place(nm, &mut text, &mut shared, l.duplicate_strings);
+            }
+        }
+        TextOrder::Interleaved => {
+            let m = labels.len().max(string_cells.len());
+            for i in 0..m {
+                if let Some((a, s)) = string_cells.get(i) {
+                    str_off.insert(*a, place(s, &mut text, &mut shared, l.duplicate_strings));
+                }
+                if let Some((_, nm)) = labels.get(i) {
+                    name_off[i] = place(nm, &mut text, &mut shared, l.duplicate_strings);
+                }
+            }
+        }
+    }
+
+    let mut data = c.data.clone();
+    for (a, t) in &c.pointers {
+        data[*a..*a + 4].copy_from_slice(&e.u32(*t as u32));
+    }
+    for (a, o) in &str_off {
+        data[*a..*a + 4].copy_from_slice(&e.u32((text_start + *o) as u32));
+    }
+    let file_size = 0x20 + text_start + text.len();
+    let mut out = Vec::with_capacity(file_size);
+    out.extend(e.u32(file_size as u32));
+    out.extend(e.u32(d as u32));
+    out.extend(e.u32(p as u32));
+    out.extend(e.u32(n as u32));
+    out.extend([0u8; 16]);
+    out.extend(&data);
+    for a in &ptrs {
+        out.extend(e.u32(*a as u32));
+    }
+    for (i, (a, _)) in labels.iter().enumerate() {
+        out.extend(e.u32(*a as u32));
+        out.extend(e.u32(name_off[i] as u32));
+    }
+    out.extend(&text);
+    out
+}
+
+pub fn canonical_layout(c: &Content) -> Layout {
+    Layout {
+        pointer_perm: (0..c.pointers.len() + c.strings.len()).collect(),
+        label_perm: (0..c.label_count()).collect(),
+        text_order: TextOrder::NamesFirst,
+        duplicate_strings: false,
+        lead_pad: false,
+    }
+}
+
+/// The canonical image (C02). `c` must have no pending c-strings.
+pub fn write_canonical(c: &Content) -> Vec<u8> {
+    write_layout(c, &canonical_layout(c))
+}
+
+/// Every conforming layout of the family of C01(c) for this content.
+pub fn layout_family(c: &Content, max_perm_items: usize) -> Vec<Layout> {
+    let np = c.pointers.len() + c.strings.len();
+    let labels = canonical_labels(c);
+    let nl = labels.len();
+    let pperms = if np <= max_perm_items { crate::util::permutations(np) } else { vec![(0..np).collect()] };
+    let lperms_all = if nl <= max_perm_items { crate::util::permutations(nl) } else { vec![(0..nl).collect()] };
+    // keep the relative order of labels on one address
+    let lperms: Vec<Vec<usize>> = lperms_all
+        .into_iter()
+        .filter(|perm| {
+            for i in 0..perm.len() {
+                for j in (i + 1)..perm.len() {
+                    let (a, b) = (perm[i], perm[j]);
+                    if labels[a].0 == labels[b].0 && a > b {
+                        return false;
+                    }
+                }
+            }
+            true
+        })
+        .collect();
+    let has_repeats = {
+        let mut all: Vec<&String> = c.strings.values().chain(labels.iter().map(|l| &l.1)).collect();
+        let n = all.len();
+        all.sort();
+        all.dedup();
+        all.len() != n
+    };
+    let mut out = Vec::new();
+    for pp in &pperms {
+        for lp in &lperms {
+            for to in [TextOrder::NamesFirst, TextOrder::StringsFirst, TextOrder::Interleaved] {
+                for dup in if has_repeats { vec![false, true] } else { vec![false] } {
+                    for pad in [false, true] {
+                        out.push(Layout { pointer_perm: pp.clone(), label_perm: lp.clone(), text_order: to.clone(), duplicate_strings: dup, lead_pad: pad });
+                    }
+                }
+            }
+        }
+    }
+    out
+}
+
+// ------------------------------------------------------------------------------------
+// Validating parser
+
+#[derive(Debug, Clone)]
+pub struct Parsed {
+    pub content: Content,
+    pub file_size_field: usize,
+    pub data_size: usize,
+    pub pointer_count: usize,
+    pub label_count: usize,
+    pub text_start_abs: usize,
+    /// pointer table entries in file order
+    pub pointer_table: Vec<usize>,
+    /// label table in file order
+    pub label_table: Vec<(usize, String)>,
+    /// (offset relative to text start, string) for every NUL-terminated run of the text section
+    pub text_runs: Vec<(usize, Vec<u8>)>,
+}
+
+fn cstr_at(b: &[u8], at: usize) -> Result<&[u8], String> {
+    if at > b.len() {
+        return Err(format!("string offset {:#x} outside the file", at));
+    }
+    match b[at..].iter().position(|x| *x == 0) {
+        Some(n) => Ok(&b[at..at + n]),
+        None => Err(format!("string at {:#x} is not NUL-terminated inside the file", at)),
+    }
+}
+
+/// Strict parse: any deviation from the format is an Err naming it.
+pub fn parse(bytes: &[u8], e: End) -> Result<Parsed, String> {
+    if bytes.len() < 0x20 {
+        return Err("shorter than the header".into());
+    }
+    let file_size_field = e.rd32(&bytes[0..]) as usize;
+    let d = e.rd32(&bytes[4..]) as usize;
+    let p = e.rd32(&bytes[8..]) as usize;
+    let n = e.rd32(&bytes[12..]) as usize;
+    let need = 0x20u128 + d as u128 + 4 * p as u128 + 8 * n as u128;
+    if need > bytes.len() as u128 {
+        return Err(format!("header declares {} bytes of data/tables, file has {}", need, bytes.len()));
+    }
+    if file_size_field != bytes.len() {
+        return Err(format!("file size field {} != file length {}", file_size_field, bytes.len()));
+    }
+    let data = bytes[0x20..0x20 + d].to_vec();
+    let ptab = 0x20 + d;
+    let ltab = ptab + 4 * p;
+    let text_start_abs = ltab + 8 * n;
+    let mut c = Content::new(e);
+    c.data = data;
+    let mut pointer_table = Vec::new();
+    for i in 0..p {
+        let a = e.rd32(&bytes[ptab + 4 * i..]) as usize;
+        if a + 4 > d {
+            return Err(format!("pointer table entry {} = {:#x} outside the data region", i, a));
+        }
+        pointer_table.push(a);
+        let v = e.rd32(&c.data[a..]) as usize;
+        if v <= d {
+            c.pointers.insert(a, v);
+        } else {
+            let s = cstr_at(bytes, 0x20 + v)?;
+            c.strings.insert(a, sjis::decode(s));
+        }
+    }
+    let mut label_table = Vec::new();
+    for i in 0..n {
+        let a = e.rd32(&bytes[ltab + 8 * i..]) as usize;
+        let o = e.rd32(&bytes[ltab + 8 * i + 4..]) as usize;
+        if a > d {
+            return Err(format!("label {} address {:#x} outside the data region", i, a));
+        }
+        let s = cstr_at(bytes, text_start_abs + o)?;
+        let name = sjis::decode(s);
+        c.labels.entry(a).or_default().push(name.clone());
+        label_table.push((a, name));
+    }
+    let mut text_runs = Vec::new();
+    let mut at = text_start_abs;
+    while at < bytes.len() {
+        match bytes[at..].iter().position(|x| *x == 0) {
+            Some(k) => {
+                text_runs.push((at - text_start_abs, bytes[at..at + k].to_vec()));
+                at += k + 1;
+            }
+            None => return Err("text section does not end with a NUL".into()),
+        }
+    }
+    Ok(Parsed { content: c, file_size_field, data_size: d, pointer_count: p, label_count: n, text_start_abs, pointer_table, label_table, text_runs })
+}
+
+/// Does the header of `bytes` declare more data / pointers / labels than the buffer holds?
+/// (C05: such input must be rejected.)
+pub fn header_overdeclares(bytes: &[u8], e: End) -> bool {
+    if bytes.len() < 0x20 {
+        return true;
+    }
+    let d = e.rd32(&bytes[4..]) as u128;
+    let p = e.rd32(&bytes[8..]) as u128;
+    let n = e.rd32(&bytes[12..]) as u128;
+    0x20 + d + 4 * p + 8 * n > bytes.len() as u128
+}
+
+// ------------------------------------------------------------------------------------
+// Edit operations (C03) on the content model. Each returns Ok(()) if the operation is
+// accepted, Err(()) if it must be rejected (model unchanged).
+
+fn shift_keys<T: Clone>(m: &BTreeMap<usize, T>, f: impl Fn(usize) -> Option<usize>) -> BTreeMap<usize, T> {
+    let mut out = BTreeMap::new();
+    for (k, v) in m {
+        if let Some(nk) = f(*k) {
+            out.insert(nk, v.clone());
+        }
+    }
+    out
+}
+
+impl Content {
+    pub fn allocate_at_end(&mut self, n: usize) {
+        self.data.extend(std::iter::repeat(0).take(n));
+    }
+
+    pub fn allocate(&mut self, a: usize, n: usize, ge: bool) -> Result<(), ()> {
+        if a > self.size() || a % 4 != 0 || n % 4 != 0 {
+            return Err(());
+        }
+        let tail = self.data.split_off(a);
+        self.data.extend(std::iter::repeat(0).take(n));
+        self.data.extend(tail);
+        let cell = |k: usize| Some(if k >= a { k + n } else { k });
+        let lab = |k: usize| Some(if k > a || (k == a && ge) { k + n } else { k });
+        self.strings = shift_keys(&self.strings, cell);
+        self.cstrings = shift_keys(&self.cstrings, cell);
+        self.labels = shift_keys(&self.labels, lab);
+        let mut np = BTreeMap::new();
+        for (k, t) in &self.pointers {
+            np.insert(cell(*k).unwrap(), lab(*t).unwrap());
+        }
+        self.pointers = np;
+        Ok(())
+    }
+
+    /// `Err(())` = must be rejected. For (a == size, n == 0) either outcome is acceptable;
+    /// callers handle that case before calling.
+    pub fn deallocate(&mut self, a: usize, n: usize, ge: bool) -> Result<(), ()> {
+        let size = self.size() as u128;
+        if a as u128 >= size || a as u128 + n as u128 > size || a % 4 != 0 || n % 4 != 0 {
+            return Err(());
+        }
+        self.data.drain(a..a + n);
+        let inside = |k: usize| k >= a && k < a + n;
+        let cell = |k: usize| if inside(k) { None } else { Some(if k >= a { k - n } else { k }) };
+        let lab = |k: usize| {
+            if inside(k) {
+                None
+            } else {
+                Some(if k > a || (k == a && ge) { k - n } else { k })
+            }
+        };
+        self.strings = shift_keys(&self.strings, cell);
+        self.cstrings = shift_keys(&self.cstrings, cell);
+        self.labels = shift_keys(&self.labels, lab);
+        let mut np = BTreeMap::new();
+        for (k, t) in &self.pointers {
+            if let (Some(nk), Some(nt)) = (cell(*k), lab(*t)) {
+                np.insert(nk, nt);
+            }
+        }
+        self.pointers = np;
+        Ok(())
+    }
+
+    /// Truncate at a cell boundary (a % 4 == 0).
+    pub fn truncate(&mut self, a: usize) {
+        if a >= self.size() {
+            return;
+        }
+        self.data.truncate(a);
+        self.strings.retain(|k, _| *k < a);
+        self.cstrings.retain(|k, _| *k < a);
+        self.pointers.retain(|k, _| *k < a);
+        self.labels.retain(|k, _| *k < a);
+    }
+
+    fn cell_in_range(&self, a: usize) -> bool {
+        (a as u128) + 4 <= self.size() as u128
+    }
+
+    pub fn write_string(&mut self, a: usize, v: Option<&str>) -> Result<(), ()> {
+        if !self.cell_in_range(a) {
+            return Err(());
+        }
+        match v {
+            Some(s) => {
+                self.strings.insert(a, s.to_string());
+            }
+            None => {
+                self.strings.remove(&a);
+            }
+        }
+        Ok(())
+    }
+    pub fn write_pointer(&mut self, a: usize, v: Option<usize>) -> Result<(), ()> {
+        if !self.cell_in_range(a) {
+            return Err(());
+        }
+        match v {
+            Some(t) => {
+                self.pointers.insert(a, t);
+            }
+            None => {
+                self.pointers.remove(&a);
+            }
+        }
+        Ok(())
+    }
+    pub fn write_c_string(&mut self, a: usize, s: &str) -> Result<(), ()> {
+        if !self.cell_in_range(a) {
+            return Err(());
+        }
+        self.cstrings.insert(a, s.to_string());
+        Ok(())
+    }
+    pub fn write_label(&mut self, a: usize, s: &str) -> Result<(), ()> {
+        if a > self.size() {
+            return Err(());
+        }
+        self.labels.entry(a).or_default().push(s.to_string());
+        Ok(())
+    }
+    pub fn write_labels(&mut self, a: usize, v: Vec<String>) -> Result<(), ()> {
+        if a > self.size() {
+            return Err(());
+        }
+        self.labels.insert(a, v);
+        Ok(())
+    }
+    pub fn delete_labels(&mut self, a: usize) -> Result<(), ()> {
+        if !self.cell_in_range(a) {
+            return Err(());
+        }
+        self.labels.remove(&a);
+        Ok(())
+    }
+    /// Err(()) also when the index is out of range for an existing bucket.
+    pub fn delete_label(&mut self, a: usize, i: usize) -> Result<(), ()> {
+        if !self.cell_in_range(a) {
+            return Err(());
+        }
+        match self.labels.get_mut(&a) {
+            Some(b) => {
+                if i < b.len() {
+                    b.remove(i);
+                    Ok(())
+                } else {
+                    Err(())
+                }
+            }
+            None => Ok(()),
+        }
+    }
+}
+
+#[cfg(test)]
+mod tests {
+    use super::*;
+    #[test]
+    fn canonical_roundtrip() {
+        let mut c = Content::new(End::Little);
+        c.data = vec![0; 12];
+        c.strings.insert(0, "abc".into());
+        c.pointers.insert(4, 8);
+        c.labels.insert(0, vec!["L0".into(), "L1".into()]);
+        c.labels.insert(12, vec!["end".into()]);
+        let img = write_canonical(&c);
+        let p = parse(&img, End::Little).unwrap();
+        assert_eq!(p.content.strings, c.strings);
+        assert_eq!(p.content.pointers, c.pointers);
+        assert_eq!(p.content.labels, c.labels);
+        for l in layout_family(&c, 3) {
+            let img = write_layout(&c, &l);
+            let p = parse(&img, End::Little).unwrap();
+            assert_eq!(p.content.strings, c.strings);
+            assert_eq!(p.content.labels, c.labels);
+        }
+    }
+}
